@@ -179,8 +179,13 @@ where
 {
     fn format_response_data(&self, formatter: &mut dyn Formatter) -> Result<()> {
         let mnemonic = self.mnemonic();
-        let short_form = mnemonic.split(|c| !c.is_ascii_uppercase()).next().unwrap();
-        formatter.push_str(short_form)
+        // Short form of the alphabetic part followed by the numeric suffix (if any),
+        // e.g. `ASCii2` => `ASC2`, `L125` => `L125`
+        let (alpha, suffix) = crate::parser::tokenizer::util::mnemonic_split_index(mnemonic)
+            .unwrap_or((mnemonic, b""));
+        let short_form = alpha.split(|c| !c.is_ascii_uppercase()).next().unwrap();
+        formatter.push_str(short_form)?;
+        formatter.push_str(suffix)
     }
 }
 
